@@ -434,9 +434,9 @@ func runRoundScenarios(c *ctx, t *hx.Trace, abs hx.Abs, newEnv func(string, map[
 		})
 		closeEnv(r)
 		// random list histories
-		nh := 3
+		nh := 5
 		if c.tier == "thorough" {
-			nh = 25
+			nh = 40
 		}
 		for h := 0; h < nh; h++ {
 			r, err := newEnv(fmt.Sprintf("rounds/randlists/%d", h), map[string]bool{"f1": false, "f2": rng.Intn(3) == 0, "f3": false})
@@ -450,10 +450,28 @@ func runRoundScenarios(c *ctx, t *hx.Trace, abs hx.Abs, newEnv func(string, map[
 					signer := []string{"gca", "gca", "gca", "x1", "gca2", ""}[rng.Intn(6)]
 					list = append(list, r.entry(names[rng.Intn(len(names))], rng.Intn(3) == 0, uint16(rng.Intn(3)), signer))
 				}
-				for _, k := range names {
-					if _, ok := r.fakes[k]; ok {
-						r.serve(k, "reply", r.build(k, replySpec{servers: list}))
+				sp := replySpec{servers: list}
+				if rng.Intn(3) == 0 {
+					// a migration order: any signer for the order and for each new server (the specification decides)
+					gs := []string{"gca", "gca2", "gca3", "x1"}
+					abs.KR.Gen("gca3")
+					var news []hx.RawServer
+					for e := 0; e < 1+rng.Intn(2); e++ {
+						news = append(news, r.entry([]string{"n1", "n2", "n3", "f1"}[rng.Intn(4)], rng.Intn(4) == 0, 1, gs[rng.Intn(3)]))
 					}
+					sp = replySpec{mig: true, newGCA: gs[rng.Intn(3)], newID: uint32(300 + rng.Intn(3)), outer: gs[rng.Intn(4)], servers: news}
+					if rng.Intn(6) == 0 {
+						sp.migFor = "otherdev"
+					}
+				}
+				r.mu.Lock()
+				var ends []string
+				for k := range r.fakes {
+					ends = append(ends, k)
+				}
+				r.mu.Unlock()
+				for _, k := range ends {
+					r.serve(k, "reply", r.build(k, sp))
 				}
 				r.round()
 				if rng.Intn(3) == 0 {
